@@ -1,6 +1,8 @@
 package recovery
 
 import (
+	"errors"
+	"io/fs"
 	"iter"
 
 	"reduction.dev/reduction/dkv/kv"
@@ -53,7 +55,9 @@ func newCheckpointFromDocument(fs storage.FileSystem, dataOwnership kv.DataOwner
 
 func (cp *Checkpoint) Destroy() error {
 	for _, wal := range cp.WALs {
-		if err := wal.Delete(); err != nil {
+		// A WAL shared with another instance restored from the same
+		// checkpoint may already have been removed by that instance.
+		if err := wal.Delete(); err != nil && !errors.Is(err, fs.ErrNotExist) {
 			return err
 		}
 	}
